@@ -247,9 +247,13 @@ def install():
 
     o_write = JB.Job._write
 
-    def _write(self, writer, time, substep, point_data, cell_data):
-        o_write(self, writer, time, substep, point_data, cell_data)
-        emit("Frame", time=int(time), x=xdig(substep.x))
+    wsig = inspect.signature(o_write)
+
+    def _write(self, *a, **k):
+        r = o_write(self, *a, **k)
+        ba = wsig.bind(self, *a, **k).arguments          # whatever the signature is: the frame time and the substep written
+        emit("Frame", time=int(ba["time"]), x=xdig(ba["substep"].x))
+        return r
 
     JB.Job._write = _write
 
